@@ -75,4 +75,22 @@ strnlen(const char *s, size_t n)
                 ;
         return i;
 }
+
+/* libc model: memcpy as a bounded byte loop.  CBMC's built-in memcpy turns a copy of SYMBOLIC size
+ * into one byte_update over the whole destination object; for the ~90 KB struct inflate_state
+ * (fixed_size_read copying avail_in bytes into state->tmp_in_buffer after a string whose length the
+ * symbolic executor cannot fold) that exhausted 24 GB during propositional reduction.  The loop
+ * touches only d[i], s[i] for i < n, every access bounds-checked by CBMC, so an out-of-bounds copy
+ * is still reported.  Not modelled: the overlap check of the built-in (memcpy with overlapping
+ * regions is not reported).  Loop bound = the query's --unwind; unwinding assertions are on. */
+void *
+memcpy(void *dst, const void *src, size_t n)
+{
+        unsigned char *d = (unsigned char *) dst;
+        const unsigned char *s = (const unsigned char *) src;
+        size_t i;
+        for (i = 0; i < n; i++)
+                d[i] = s[i];
+        return dst;
+}
 #endif
